@@ -16,17 +16,15 @@ package mp4
 
 // ---------------------------------------------------------------- meta
 // Children are appended by AddChild (meta.go:47) from decoded boxes (meta.go:85) or from CreateMetaBox (meta.go:37).
-// FINDING: !b.isQuickTime is NOT established by the decoder (meta.go:70 sets isQuickTime = true when the payload starts
-// with "hdlr"); EncodeSW (meta.go:136) writes version+flags unconditionally whereas Size() (meta.go:100) subtracts the 4
-// bytes: for a QuickTime meta atom EncodeSW writes Size()+4 bytes. Needed for the rest of the proof.
-// (repaired by a fix: commit: EncodeSW now writes version and flags only for ISO meta boxes)
+// Both layouts are covered: a QuickTime meta atom (isQuickTime, set by DecodeMetaSR meta.go:70-71) has no version/flags word in
+// Size() (meta.go:96-102), Encode (meta.go:115) and EncodeSW (meta.go:137).
 //@ pred boxOK@MetaBox(b *MetaBox) = kidsOK(b.Children)
 
 //@ func (*MetaBox).Size
 //@   inline
 //@ func (*MetaBox).EncodeSW
 //@   loop 1 invariant idx(1) <= len(b.Children)
-//@   loop 1 invariant adv(sw, 12 + int(sizeSum(b.Children, idx(1))))
+//@   loop 1 invariant adv(sw, ite(b.isQuickTime, 8, 12) + int(sizeSum(b.Children, idx(1))))
 
 // ---------------------------------------------------------------- moof
 // Children are appended by AddChild (moof.go:83) from decoded boxes (moof.go:40, moof.go:58).
@@ -135,6 +133,9 @@ package mp4
 // len(a.name) == 4: hdr.Name of a decoded header (audiosamplentry.go:82, :122, hdrOK); RemoveEncryption copies
 // frma.DataFormat (audiosamplentry.go:257, boxOK@FrmaBox); constructors/SetType take the four-character code from the caller.
 //@ pred boxOK@AudioSampleEntryBox(b *AudioSampleEntryBox) = kidsOK(b.Children) && len(b.name) == 4
+// Specification-level copy of the Go function makeFixed32Uint (audiosamplentry.go:31-33), which the trace specification asePre
+// (verif_contracts_c03.go) refers to: without it every contract of the two audio sample entry encoders is a binding error.
+//@ spec makeFixed32Uint(nr uint16) uint32 = uint32(nr) << 16
 
 //@ func (*AudioSampleEntryBox).Size
 //@   pure
@@ -146,20 +147,7 @@ package mp4
 //@   loop 1 invariant idx(1) <= len(a.Children)
 //@   loop 1 invariant adv(sw, 36 + int(sizeSum(a.Children, idx(1))))
 
-// ---------------------------------------------------------------- silb (child of evte; not on the c02c list, UNFINISHED)
-// Size and the C02 postcondition of EncodeSW verify from these invariants; inv-pres of the adv invariant is left `unknown` by
-// all three solvers (three conditional writer steps per iteration combined with re-association of 64-bit sums; the same
-// goal with the recursive function replaced by constants is proved by cvc5 in 19 s, by z3 not within 60 s).
-//@ spec rec silbSum(es []SilbEntry, n int) uint64 = ite(n <= 0, uint64(0), silbSum(es, n-1) + uint64(len(es[n-1].SchemeIdURI) + 1 + len(es[n-1].Value) + 1 + 1))
-//@ func (*SilbBox).Size
-//@   pure
-//@   ensures result == 17 + silbSum(b.Schemes, len(b.Schemes))
-//@   assigns nothing
-//@   loop 1 invariant 0 <= idx(1) && idx(1) <= len(b.Schemes)
-//@   loop 1 invariant size == 16 + silbSum(b.Schemes, idx(1))
-//@ func (*SilbBox).EncodeSW
-//@   loop 1 invariant idx(1) <= len(b.Schemes)
-//@   loop 1 invariant adv(sw, 16 + int(silbSum(b.Schemes, idx(1))))
+// (silb, child of evte: contracts in verif_contracts_c02b.go)
 
 // ---------------------------------------------------------------- stretch (NOT ACTIVE: kept as plain comments)
 // Decoders establish the non-children part of boxOK. With the frame assumption
